@@ -730,6 +730,14 @@ func (b *binRun) signalShutdown(r interface{ Intn(int) int }, smtpAddr string) {
 		}
 	}
 	if idle != nil {
+		if r.Intn(2) == 0 {
+			// the operator (or the service manager) is impatient: the same request again while the open session is still being served.
+			// Shutdown was already requested; a repeated request must not cut the open session off
+			sig2 := []syscall.Signal{syscall.SIGTERM, syscall.SIGINT}[r.Intn(2)]
+			e.line("second signal %v during the drain", sig2)
+			c.H(fmt.Sprintf("bin:second-signal-%v", sig2))
+			_ = b.cmd.Process.Signal(sig2)
+		}
 		if b.waitExit(150 * time.Millisecond) {
 			b.fail("open-session-may-finish", fmt.Sprintf("%v: the process exited (code %d) %v after the signal although an SMTP session was open", sig, b.code, b.exitAt.Sub(t0).Round(time.Millisecond)))
 			return
